@@ -24,6 +24,14 @@ import Reduino.Lang.Tr
       strings where the emitted sum has a `String` object on one side (`Expr.binTyOk`; `s += e` likewise); strings are kept out of conditions (`if`, `while`, `not`, the test of a conditional
       expression: Python tests "non-empty", the `String` class something else), out of counts (`range`, `sleep`: `Expr.okCond`),
       out of every other arithmetic and out of comparisons; a name keeps one type, so a string-typed name is only ever assigned strings.
+    * helper functions (W6): `def`s before the prologue, called at STATEMENT level only — `f(args)`, `x = f(args)` with `x` already
+      declared — with pure, well-typed arguments of exactly the parameter types (int/bool/string, one signature per helper); the body
+      is a nested statement of the fragment over its PARAMETERS and LOCALS only (locals first assigned at the top level of the body;
+      parameters never assigned; no tuple assignment; no module-level name, neither read nor written: K01j is the known defect about
+      writes), followed by at most one trailing `return e` with `e` well typed under the body's declarations and `x` declared with its
+      type; a body calls only helpers defined EARLIER (no recursion: `Prog.resolved`, checked by `tr`); the names a body assigns are
+      among `allAssigned` (they are no `for` variables anywhere).  `mon.write` / `sleep` / loops / `break` inside loops of the body are
+      ordinary statements of the fragment.
 -/
 namespace Reduino.Lang
 
@@ -42,20 +50,6 @@ def Expr.vars : Expr → List String
   | .abs a => a.vars
   | .mm _ a b => a.vars ++ b.vars
   | .toStr a => a.vars
-
-def Stmt.assigned : Stmt → List String
-  | .skip => []
-  | .seq a b => a.assigned ++ b.assigned
-  | .assign x _ => [x]
-  | .aug x _ _ => [x]
-  | .tuple _ xs _ => xs
-  | .ctuple _ _ xs _ => xs
-  | .ifs _ t e => t.assigned ++ e.assigned
-  | .whileLoop _ b => b.assigned
-  | .forRange _ _ b => b.assigned
-  | .write _ => []
-  | .sleep _ => []
-  | .brk => []
 
 /-- the characters a literal of the fragment may contain: printable ASCII (the emitted literal escapes `\` and `"`,
     `Esc.escape`; what the C++ lexer reads back is C06's `escape_roundtrip`) -/
@@ -99,6 +93,15 @@ def Expr.wt (te : C.TyEnv) : Expr → Bool
     "non-empty", the `String` class converts differently; `range("a")` / `sleep("a")` raise) -/
 def Expr.okCond (te : C.TyEnv) (c : Expr) : Bool := c.wt te && inferTy te c != .string
 
+/-- W6: target and `return` of a call: a procedure call has neither; the value of a `return e` may be dropped (`f(args)`) or assigned
+    to a name declared with the type inferred for `e` under the declarations `te'` of the body; `x = f(…)` with a procedure `f` (the
+    value `None`) is outside -/
+def callRetOk (te te' : C.TyEnv) : Option String → Option Expr → Bool
+  | none, none => true
+  | none, some e => e.wt te'
+  | some y, some e => e.wt te' && (te.lookup y == some (inferTy te' e))
+  | some _, none => false
+
 /-- statements below the top level; `te` holds the globals declared so far plus the loop variables in scope;
     `allAssigned` are all names assigned anywhere in the program -/
 def Stmt.okNested (allAssigned : List String) (te : C.TyEnv) : Stmt → Bool
@@ -120,6 +123,16 @@ def Stmt.okNested (allAssigned : List String) (te : C.TyEnv) : Stmt → Bool
   | .write e => e.wt te && inferTy te e != .bool
   | .sleep e => e.okCond te
   | .brk => true
+  -- W6 (increments 2, 3): a call `f(args)` / `x = f(args)`: well-typed arguments of exactly the parameter types, distinct parameters
+  -- that the body never assigns, no tuple assignment in the body (`funShapeOk`); the body is a nested statement of the fragment
+  -- under its own declarations — parameters, then the locals first assigned at its top level (`funDecls`) — and the names it
+  -- assigns are among `allAssigned` (so they are no `for` variables); the `return` expression is well typed under those
+  -- declarations and the target is declared with its type (`callRetOk`)
+  | .call x _ ps _ _ body ret args =>
+    args.all (fun e => e.wt te) && (args.map (inferTy te) == ps.map (·.2)) && funShapeOk ps body &&
+    (match funDecls ps body with
+     | some te' => body.okNested allAssigned te' && body.assigned.all (fun x => allAssigned.contains x) && callRetOk te te' x ret
+     | none => false)
 
 /-- the prologue, statement by statement, threading the declarations exactly as `trTop` does -/
 def Stmt.okTop (allAssigned : List String) (te : C.TyEnv) : Stmt → Option C.TyEnv
@@ -133,7 +146,7 @@ def Stmt.okTop (allAssigned : List String) (te : C.TyEnv) : Stmt → Option C.Ty
   | s => if s.okNested allAssigned te then some te else none
 
 def InF (p : Prog) : Bool :=
-  let all := p.pre.assigned ++ (match p.body with | some b => b.assigned | none => [])
+  let all := p.pre.assigned ++ (match p.body with | some b => b.assigned | none => []) ++ p.helpers.flatMap (·.body.assigned)
   match p.pre.okTop all [] with
   | none => false
   | some te => match p.body with
